@@ -15,3 +15,4 @@ import DDProofs.MddConv
 import DDProofs.MddReach
 import DDProofs.MddGcReach
 import DDProofs.MddCount
+import DDProofs.MddFuel
